@@ -11,7 +11,7 @@ import random
 import sqlite3
 import sys
 
-from skv import env, ref, gen, bridge, simnet
+from skv import env, ref, gen, bridge, simnet, nodekit
 from skv.runner import digest
 
 PROPERTY = "C12"
@@ -292,11 +292,9 @@ class Setup:
                             return False
                         kind, (summary, height) = mw.send_queues[0].items[-1]
                         summary_hash = cons.construct_summary_hash(summary, height)
-                        s2, h2, txs = mw.mining_args[0]
-                        evidence = cons.construct_pow_evidence_after_scrypt(summary_hash, mw.coinstate, s2, h2, txs)
-                        cand = Block(BlockHeader(s2, evidence), txs)
+                        cand, found = nodekit.probe_candidate(mw, self.mining, 0, summary_hash)
                         c["candidates"] += 1
-                        if cand.hash() < cand.target:
+                        if found:
                             self.late_sibling = False
                             c["first_candidates_after_head_change_found"] = c.get("first_candidates_after_head_change_found", 0) + 1
                             return self.judge_found(cand, summary_hash, w_base)
@@ -319,13 +317,44 @@ class Setup:
                 return False
             kind, (summary, height) = mw.send_queues[0].items[-1]
             summary_hash = cons.construct_summary_hash(summary, height)
-            s2, h2, txs = mw.mining_args[0]
-            evidence = cons.construct_pow_evidence_after_scrypt(summary_hash, mw.coinstate, s2, h2, txs)
-            cand = Block(BlockHeader(s2, evidence), txs)
+            # (the candidate is the block the REAL found-block handler builds for this result; the handler is stopped before it
+            # adopts a block whose id is below the target, so that the situation can be judged first)
+            try:
+                cand, found = nodekit.probe_candidate(mw, self.mining, 0, summary_hash)
+            except Exception as e:
+                mon.v("found-block-handler-raised", "while building the block for a scrypt result: %r" % (e,),
+                      dict(w_base, chain=gen.blocks_hex(world, world.chain.order[1:])))
+                return False
             c["candidates"] += 1
-            if not cand.hash() < cand.target:
-                quiet(mw.handle_scrypt_output_message, 0, summary_hash)
+            if not found:
                 continue
+            # sometimes ANOTHER miner process asks for work between this candidate's request and its hit, after the pool has grown:
+            # the block found is still the one the first process was given
+            self.pool_grew_after_request = False
+            if self.rng.random() < 0.3:
+                grew = self.fill_pool(self.rng.choice([1, 2]))
+                while len(mw.send_queues) < 2:
+                    mw.send_queues.append(StubQueue())
+                try:
+                    quiet(mw.handle_request_scrypt_input_message, 1, (nonce + 991) & 0xFFFFFFFF)
+                except Exception:
+                    pass
+                self.pool_grew_after_request = grew > 0
+                c["another_miner_asked_between_request_and_hit"] = c.get("another_miner_asked_between_request_and_hit", 0) + 1
+                # (what the handler builds NOW is what gets adopted: judge that)
+                try:
+                    cand2, found2 = nodekit.probe_candidate(mw, self.mining, 0, summary_hash)
+                except Exception as e:
+                    mon.v("found-block-handler-raised", "while building the block for a scrypt result: %r" % (e,),
+                          dict(w_base, chain=gen.blocks_hex(world, world.chain.order[1:])))
+                    return False
+                if cand2 is None or not found2 or cand2.hash() != cand.hash():
+                    mon.v("found-block-differs-from-the-candidate-handed-out", "miner 0 was handed a candidate whose id is below the target; "
+                          "after another miner process had asked for work (the pool had grown meanwhile) the block built for miner 0's "
+                          "result is %s" % ("another block" if cand2 is not None else "none"),
+                          dict(w_base, chain=gen.blocks_hex(world, world.chain.order[1:])))
+                    if cand2 is not None:
+                        cand = cand2
             # sometimes the head MOVES between the request that built this candidate and the hit: a peer's block on the same
             # parent arrives first, and a second miner process asks for work (which moves the watcher's view to the new head).
             # The found block is then a valid sibling of the head: part of the served state (not its head), stored, broadcast.
@@ -409,7 +438,7 @@ class Setup:
             c["found_with_transactions"] += 1
             c["pool_transactions_included"] += len(rb.txs) - 1
         included = {t.id() for t in rb.txs[1:]}
-        if included != {t.id() for t in pool} and not late:
+        if included != {t.id() for t in pool} and not late and not getattr(self, "pool_grew_after_request", False):
             mon.v("candidate-does-not-contain-the-pool", "candidate has %d transactions, pool has %d" % (len(included), len(pool)), w)
         # let the real found-block handler run
         for r in self.peers:
